@@ -714,10 +714,12 @@ def scriptOp (st : St) (op : String × Nat × Nat × Nat) : St :=
   let push := fun (st : St) (r : String) => { st with sres := st.sres ++ [r] }
   let edge := fun (r : S × Res Nat) => push { st with s := r.1 } (resStr r.2)
   match k with
-  | "c" => push { st with s := connect st.s a b e } "ok"
+  -- `hc` / `hd` / `hx`: the same mutation handed to another thread by the closure, which waits for it (sync flavours):
+  -- nothing of the running loop is held while the closure runs, so it is the plain mutation
+  | "c" | "hc" => push { st with s := connect st.s a b e } "ok"
   | "t" => edge (if st.directed then Di.tryConnect st.s a b e else Un.tryConnect st.s a b e)
-  | "d" => edge (if st.directed then Di.disconnect st.s a b else Un.disconnect st.s a b)
-  | "x" => edge (if st.directed then Di.isolate st.s a else Un.isolate st.s a)
+  | "d" | "hd" => edge (if st.directed then Di.disconnect st.s a b else Un.disconnect st.s a b)
+  | "x" | "hx" => edge (if st.directed then Di.isolate st.s a else Un.isolate st.s a)
   | "q" => push st (b01 (if st.directed then Di.isConnected st.s a b else Un.isConnected st.s a b))
   | "s" =>
     match searchPath (if st.directed then outAdj st.s else unAdj st.s) (fun _ _ _ => true) (nodeVal st) .bfs a (some b) false (st.keys.length + 2) with
